@@ -1012,9 +1012,8 @@ class Config:  # pylint: disable=too-many-instance-attributes
         if not self.__keyfile:
             if self._parent:
                 # This will bubble up to the root config
-                self.__keyfile = self._parent._keyfile
-            else:
-                self.__keyfile = KeyFile(Config.DEFAULT_CINCOKEY_FILEPATH)
+                return self._parent._keyfile
+            self.__keyfile = KeyFile(Config.DEFAULT_CINCOKEY_FILEPATH)
         return self.__keyfile
 
     def _get_field(self, key: str) -> Optional[BaseField]:
